@@ -5,9 +5,12 @@ from .oracle import Oracle, bits, mask
 
 def table_battery(battery):
     def run(concepts, case):
+        late, orc = B.make(concepts, case)       # created before, first used after the other contexts
         keep = B.decoys(concepts, case['objects'], case['properties'], case['table'], battery)   # noqa: F841
+        fails = [f'(context created before, used after other contexts over the same labels) {f}'
+                 for f in battery(late, orc)]
         ctx, orc = B.make(concepts, case)
-        fails = battery(ctx, orc)
+        fails += battery(ctx, orc)
         if not fails and case.get('probe'):
             pc = B.probe_case(case)
             if pc is not None:
